@@ -683,7 +683,29 @@ def np_random_rand(eng, args, kwargs):
     return NArr((n,), [one() for _ in range(n)], "real")
 
 
+def np_argminmax(is_min):
+    def model(eng, args, kwargs):
+        """np.argmin / np.argmax of a concrete-shape array (flattened): the FIRST position of the extremum, decided by
+        forking on the comparisons (so the result is a concrete index on every path)"""
+        a = args[0]
+        if isinstance(a, PList) and a.items is not None:
+            a = _as_narr(eng, a)
+        if not isinstance(a, NArr) or kwargs or len(args) != 1:
+            raise Unsupported("np.argmin / np.argmax form")
+        used(eng, "np.argmin/np.argmax: first position of the extremum of the flattened array")
+        if not a.items:
+            raise ProgExc(ValueError, "attempt to get argmin of an empty sequence")
+        cur = 0
+        for j in range(1, len(a.items)):
+            if eng.branch(eng.compare(ast.Lt() if is_min else ast.Gt(), a.items[j], a.items[cur])):
+                cur = j
+        return cur
+
+    return model
+
+
 NP_MODELS = {
+    np.argmin: np_argminmax(True), np.argmax: np_argminmax(False),
     np.random.rand: np_random_rand,
     np.dot: np_dot, np.matmul: np_dot, np.cross: np_cross, np.linalg.norm: np_norm, np.eye: np_eye, np.identity: np_eye,
     np.zeros: np_zeros, np.ones: np_ones, np.full: np_full, np.stack: np_stack, np.concatenate: np_concatenate,
